@@ -12,7 +12,7 @@ From AV Require Import Base.ListSet Model.Quote Model.C14Reserved.
 Import ListNotations.
 Open Scope N_scope.
 
-Inductive c14_err := EIndex | ENotImplemented | ECompile | EAssert | EOther.
+Inductive c14_err := EIndex | ENotImplemented | ECompile | EAssert | ECommand | EOther.
 
 Inductive res (A:Type) := ROk (a:A) | RErr (e:c14_err).
 Arguments ROk {A} a.
